@@ -1,5 +1,7 @@
 import ScrapliModel.Lemmas.Request
 import ScrapliModel.Lemmas.SelfClose
+import ScrapliModel.Lemmas.GoSem
+import ScrapliModel.Generated.BodiesRequest
 /-!
 # C03 — NETCONF requests on the wire are correctly framed and carry the caller's content
 
@@ -441,5 +443,22 @@ theorem session_decodes_v11 (sc nh : Bool) (inners : List Bytes)
       = some (raws .v11 sc nh (sessionBodies Gen.Netconf.initialMessageID inners)) :=
   session_decodes .v11 sc nh inners
     (fun r hr => ⟨session_raws_ne_nil .v11 sc nh _ inners r hr, hsize r hr⟩)
+
+/-! ## tie to the source: translated body = model (regenerated on every run) -/
+
+/-- the body of `(*message).serialize` as the translator renders it from the current source
+(`Generated/BodiesRequest.lean`; `body` = the bytes `xml.Marshal` returned, taken to succeed,
+`ForceSelfClosingTags` = the model's `forceSelfClosing`, `%d` of `fmt.Sprintf` = `decDigits`): for
+both versions and all four option combinations it returns a `nil` error, `rawXML` is the model's raw
+message and `framedXML` the model's framed message, whatever the two fields held before -/
+theorem generated_serialize_eq (ver : Version) (sc nh : Bool) (body r0 f0 : Bytes) :
+    Gen.Bodies.Request.serialize body forceSelfClosing r0 f0
+        (match ver with | .v10 => Gen.Netconf.V1Dot0 | .v11 => Gen.Netconf.V1Dot1) sc nh
+      = some ((), none, (serialize ver sc nh body).1, (serialize ver sc nh body).2) := by
+  have hne : (Gen.Netconf.V1Dot1 == Gen.Netconf.V1Dot0) = false := by decide
+  have h0 : ∀ m : Bytes, decide ((0 : Int) ≤ Go.len m) = true := by intro m; simp [Go.len]
+  unfold Gen.Bodies.Request.serialize serialize
+  cases ver <;> cases sc <;> cases nh <;>
+    simp [hne, h0, Go.copy_replicate, Go.fmtInt_len, HASH, LF]
 
 end Scrapli.Netconf.C03
